@@ -157,6 +157,9 @@ def _run_net(ctx: Ctx):
                 ctx.count("net-model-out-of-fuel")
         ctx.case(["net", case], nontrivial)
         bad = rnet.oracle(case, records)
+        if not bad and out[pos[0] - 1] == "1" and not (impl and impl[0] == "OOF"):
+            bad = rnet.arp_sound_oracle(case, impl)
+            ctx.count("net-arp-sound-checked-on-impl")
         if bad:
             k = bad["op"]
             small = dict(case, ops=case["ops"][:k + 1]) if k < len(case["ops"]) else case
